@@ -46,6 +46,7 @@ func (o c09Obs) same(p c09Obs) bool { return o.coq() == p.coq() }
 
 // c09World is one scenario: instance X with k databases, instance Y with some of them.
 type c09World struct {
+	sharedX *orbitdb.CreateDBOptions
 	r      *Run
 	s      *Scen
 	k      int
@@ -290,7 +291,7 @@ func c09Scenario(r *Run, si int, hookCount *int64) error {
 	defer s.Close()
 	X, Y := s.Reps[0], s.Reps[1]
 	k := 2 + r.Rng.Intn(3)
-	w := &c09World{r: r, s: s, k: k, entDB: map[string]int{}, entTime: map[string]int{}, hooks: hookCount}
+	w := &c09World{r: r, s: s, k: k, entDB: map[string]int{}, entTime: map[string]int{}, hooks: hookCount, sharedX: &orbitdb.CreateDBOptions{}}
 
 	// subscriber on X's shared bus
 	sub, err := X.Orbit.EventBus().Subscribe([]interface{}{
@@ -379,7 +380,13 @@ func c09Scenario(r *Run, si int, hookCount *int64) error {
 			typ, mode = w.types[j-1], w.wmodes[j-1]
 			r.Count("sibling-same-root")
 		} else {
-			st, err = X.Orbit.Create(ctx, fmt.Sprintf("db-%s-%d", s.Label, nameIdx), typ, &orbitdb.CreateDBOptions{AccessController: ac})
+			xo := &orbitdb.CreateDBOptions{}
+			if si%2 == 0 {
+				xo = w.sharedX // one options value for all databases of X, only the access controller set anew
+				r.Count("shared-options-create")
+			}
+			xo.AccessController = ac
+			st, err = X.Orbit.Create(ctx, fmt.Sprintf("db-%s-%d", s.Label, nameIdx), typ, xo)
 			if err != nil {
 				return fmt.Errorf("create %d: %w", j, err)
 			}
@@ -390,10 +397,19 @@ func c09Scenario(r *Run, si int, hookCount *int64) error {
 		w.wmodes = append(w.wmodes, mode)
 		s.Canon.LogID.ID(st.Address().String())
 	}
+	// in every second scenario Y opens all its databases with ONE options value (a caller may
+	// well keep its options in a variable): whatever an Open leaves in it must not leak into
+	// the next database
+	sharedOpts := &orbitdb.CreateDBOptions{}
 	for j := 0; j < k; j++ {
 		var sy iface.Store
 		if w.wmodes[j] != "x" && (j == 0 || r.Rng.Intn(4) > 0) {
-			sy, err = Y.Orbit.Open(ctx, w.addrs[j], &orbitdb.CreateDBOptions{})
+			yo := &orbitdb.CreateDBOptions{}
+			if si%2 == 0 {
+				yo = sharedOpts
+				r.Count("shared-options-open")
+			}
+			sy, err = Y.Orbit.Open(ctx, w.addrs[j], yo)
 			if err != nil {
 				return fmt.Errorf("open %d on Y: %w", j, err)
 			}
